@@ -6,7 +6,9 @@
    Case format (one operation per line, strings hex-encoded with a leading 'x', NULL = '-'):
      H id | new o | kv k n (key i|o val)* | add o ty chr name var hasarg kv init | sub o s prefix
      parse o argc args.. | load o f | loadargs o f | save o f | file f bytes | errno n
-     seti v z | setd v bits | sets v s | destroy o | summary o | strtol s | dirty c | E               */
+     seti v z | setd v bits | sets v s | destroy o | summary o | strtol s | dirty c | quiet b | E
+   `quiet 1`: the result lines of the declaration operations (new, kv, add, sub) carry no dump of the variables until
+   `quiet 0` (histories with hundreds of options: the dump of every variable after every declaration is quadratic).  */
 #include <sc.h>
 #include <sc_options.h>
 #include <sc_keyvalue.h>
@@ -16,7 +18,7 @@
 #include <unistd.h>
 #include <dirent.h>
 
-#define NV 64
+#define NV 2048
 #define NO 8
 #define NK 4
 
@@ -28,6 +30,7 @@ static char         kind[NV];   /* 0 unused, i, z, d, s */
 static sc_options_t *obj[NO];
 static sc_keyvalue_t *kvt[NK];
 static char         tmpdir[256];
+static int          quiet;       /* no variable dump on the lines of declaration operations */
 static int          saveok[NO];  /* sc_options_save is legal only after a successful parse / load_args */
 
 /* allocations that must outlive the calls (argv, names, prefixes); freed at the end of a history */
@@ -176,6 +179,7 @@ int main (int argc, char **argv)
       hid = atol (tok[1]);
       memset (kind, 0, sizeof kind);
       memset (ivar, 0, sizeof ivar); memset (zvar, 0, sizeof zvar); memset (dvar, 0, sizeof dvar); memset (svar, 0, sizeof svar);
+      quiet = 0;
       mem0 = sc_memory_status (sc_package_id);
       dmem0 = sc_memory_status (-1);
       printf ("H %ld\n", hid);
@@ -281,6 +285,7 @@ int main (int argc, char **argv)
       sc_options_print_usage (sc_package_id, SC_LP_ERROR, obj[o], "ARG1\nARG2");
     }
     else if (!strcmp (op, "dirty")) next_fill = atoi (tok[1]);
+    else if (!strcmp (op, "quiet")) quiet = atoi (tok[1]);
     else if (!strcmp (op, "strtol")) {
       char *s = unhex (tok[1], NULL);
       long l;
@@ -294,7 +299,7 @@ int main (int argc, char **argv)
     {
       int saved = errno;        /* printing must not disturb the errno the next operation sees */
       printf ("%s r=%d |", op, ret);
-      dump ();
+      if (!(quiet && (!strcmp (op, "new") || !strcmp (op, "kv") || !strcmp (op, "add") || !strcmp (op, "sub")))) dump ();
       printf ("\n");
       errno = saved;
     }
